@@ -2,7 +2,7 @@
 # Builds the harness offline from files on disk and pre-warms the Go build cache.
 set -e
 export GOFLAGS=-mod=mod GOPROXY=off GOSUMDB=off GOTOOLCHAIN=local
-export VERIF_DIR="${VERIF_DIR:-/verif}"
+export VERIF_DIR="${VERIF_DIR:-$(cd "$(dirname "${BASH_SOURCE[0]}")/.." && pwd)}"
 cd "$VERIF_DIR/harness"
 mkdir -p "$VERIF_DIR/.build" "$VERIF_DIR/evidence" "$VERIF_DIR/replays"
 go build -tags badger -o "$VERIF_DIR/.build/vcheck" ./cmd/vcheck
